@@ -193,7 +193,10 @@ def dba(s, c, mask=None, samples=None, use_c=False, nb_initial_samples=None, **k
     if mask is not None and not mask.any():
         # Mask has not selected any series
         print("Empty mask, returning zero-constant average")
-        c = array.array('d', [0] * len(s[0]))
+        if ndim == 1:
+            c = array.array('d', [0] * len(s[0]))
+        else:
+            c = np.zeros((len(s[0]), ndim), dtype=np.double)
         return c
     if mask is None:
         mask = np.full((len(s),), True, dtype=bool)
